@@ -102,6 +102,9 @@ def write(prop, tier, master, check, params, total, det, known_hits, unknown, wa
     os.makedirs(d, exist_ok=True)
     with open(os.path.join(d, "%s.json" % prop), "w") as f:
         json.dump(doc, f, indent=1, default=str, sort_keys=True)
+    if tier == "thorough":       # kept next to the file the quick check rewrites
+        with open(os.path.join(d, "%s.thorough.json" % prop), "w") as f:
+            json.dump(doc, f, indent=1, default=str, sort_keys=True)
 
 
 COMMON_ASSUMPTIONS = [
